@@ -25,6 +25,9 @@ type Step struct {
 
 type Case struct {
 	Steps []Step
+	// Prunable: before every request step an expired certificate is put into the underlying agent out
+	// of band, so that list / sign requests make the shim purge something on its own
+	Prunable bool
 }
 
 const tableSize = 40
@@ -62,6 +65,16 @@ func waiterCounts(srv yubiagent.YubiAgent) (counts [tableSize]int, ok bool) {
 }
 
 var certBlob []byte
+
+var expCert *ssh.Certificate
+
+func expiredCert() *ssh.Certificate {
+	if expCert == nil {
+		now := uint64(time.Now().Unix())
+		expCert = vh.MakeSSHCert(vh.SSHCertSpec{Key: "p256b", KeyID: "expired", ValidAfter: now - 7200, ValidBefore: now - 3600})
+	}
+	return expCert
+}
 
 func reqFor(code int) []byte {
 	switch code {
@@ -327,6 +340,9 @@ func exec(c Case) (vh.Outcome, error) {
 			}
 		case "request":
 			pending = nil
+			if c.Prunable {
+				_ = p.Ring().Add(agent.AddedKey{PrivateKey: vh.Key("p256b"), Certificate: expiredCert(), Comment: "expired"})
+			}
 			mu.Lock()
 			if len(active) > 0 && len(active[st.Code]) == 0 {
 				nonMatchingBeforeMatching = true
@@ -402,6 +418,9 @@ func exec(c Case) (vh.Outcome, error) {
 	if lockedWait {
 		out.Classes = append(out.Classes, "wait-started-while-agent-locked")
 	}
+	if c.Prunable {
+		out.Classes = append(out.Classes, "shim-purges-during-requests")
+	}
 	out.NonTrivial = nw >= 2 && nonMatchingBeforeMatching
 	if len(codesWaited) >= 2 {
 		out.Classes = append(out.Classes, "waiters-on-2+-codes")
@@ -415,6 +434,12 @@ func gen(t *rapid.T) Case {
 	codes := rapid.SliceOfN(rapid.OneOf(rapid.SampledFrom([]int{0, 11, 13, 19, 31, 32, 35, 35, 39, 39, 40, 41, 255}), rapid.IntRange(0, 39), rapid.IntRange(0, 39), rapid.IntRange(0, 255)), 2, 4).Draw(t, "codes")
 	n := rapid.IntRange(1, 14).Draw(t, "nsteps")
 	waiters := 0
+	c.Prunable = rapid.IntRange(0, 2).Draw(t, "prunable") == 1
+	if c.Prunable {
+		// the codes of the requests the shim issues to the underlying agent while purging, and of the
+		// requests that trigger a purge
+		codes = append(codes, 18, 11)
+	}
 	if rapid.IntRange(0, 3).Draw(t, "lockFirst") == 0 {
 		// the agent is locked (well-formed lock request) before anybody waits
 		c.Steps = append(c.Steps, Step{Kind: "request", Code: 22})
@@ -438,7 +463,7 @@ func gen(t *rapid.T) Case {
 	return c
 }
 
-const rule = "harness-owned schedules over one real NewServer(remote=true): 1..14 steps {start a waiter on code c directly, start a waiter through its own client connection (which is itself a request with code 35), send a request whose first byte is c' on another connection and read its response}, up to 8 waiters on 1..4 codes drawn from 0..255 with weight on 0, 11, 13, 19, 31, 32, 35, 39, 40, 41, 255, requests also with unrelated codes, among them well-formed lock (22) and unlock (23) requests, and a quarter of the schedules lock the agent first (class wait-started-while-agent-locked): whether the agent is locked is not part of when a waiter is released. The executor advances only on observed states: a waiter counts as registered when the waiter count of its code's condition variable (read with reflect) reached the expected value; a request is done when its response was read. Oracle after every request with code c': registered waiters of c' = 0 and exactly those waiters return (a released waiter that does not return within 15 s is a lost wake-up), waiter counts of every other code unchanged and none of their waiters returned; codes >= 40 return immediately; all remaining waiters are woken by matching requests at the end; the race detector is an additional oracle. Non-trivial: >= 2 blocking waiters and a non-matching request while somebody waits (class waiters-on-2+-codes counts the schedules with several codes)."
+const rule = "harness-owned schedules over one real NewServer(remote=true): 1..14 steps {start a waiter on code c directly, start a waiter through its own client connection (which is itself a request with code 35), send a request whose first byte is c' on another connection and read its response}, up to 8 waiters on 1..4 codes drawn from 0..255 with weight on 0, 11, 13, 19, 31, 32, 35, 39, 40, 41, 255, requests also with unrelated codes, among them well-formed lock (22) and unlock (23) requests, and a quarter of the schedules lock the agent first (class wait-started-while-agent-locked): whether the agent is locked is not part of when a waiter is released. In a third of the schedules an expired certificate is put into the underlying agent before every request, so that list requests make the shim purge (and talk to the underlying agent) on its own: what the shim does by itself releases nobody either. The executor advances only on observed states: a waiter counts as registered when the waiter count of its code's condition variable (read with reflect) reached the expected value; a request is done when its response was read. Oracle after every request with code c': registered waiters of c' = 0 and exactly those waiters return (a released waiter that does not return within 15 s is a lost wake-up), waiter counts of every other code unchanged and none of their waiters returned; codes >= 40 return immediately; all remaining waiters are woken by matching requests at the end; the race detector is an additional oracle. Non-trivial: >= 2 blocking waiters and a non-matching request while somebody waits (class waiters-on-2+-codes counts the schedules with several codes)."
 
 func TestC20Wait(t *testing.T) {
 	vh.Run(t, vh.Spec[Case]{Property: "C20", Name: "TestC20Wait", Rule: rule, Gen: gen, Exec: exec, Journal: true})
